@@ -83,11 +83,13 @@ def run(name, grammars, jobs, variants=genrun.ALL_VARIANTS, **kw):
             open(p, 'w').write(genrun.go_text(g, 'p', False))
         paths.append(p)
     dumps = vlib.run_dump(paths)
-    text = []
+    chunks = []
     tids = {}
     for gi, ((gname, g), d) in enumerate(zip(grammars, dumps)):
         if not d.get('ok'):
             continue
+        text = []
+        chunks.append(text)
         acts = [(0, [])] + [(r['c'], r['coef']) for r in g['rules']]
         text.append(vlib.model_grammar_text('g%d' % gi, d, acts))
         tids[gname] = sym_ids(g, d)
@@ -100,7 +102,7 @@ def run(name, grammars, jobs, variants=genrun.ALL_VARIANTS, **kw):
                     parts = payload.split(',')
                     text.append('H %s|%s|%s %d %d %d %s\n' % (vn, mode, payload, vi, max(fuel_for(p) for p in parts), len(parts),
                                                                ' '.join(model_input(g, tids[gname], p) for p in parts)))
-    lines = vlib.model_eval(''.join(text)) if text else []
+    lines = vlib.model_eval_chunks([''.join(t) for t in chunks])
     model = {}
     for ln in lines:
         f = ln.split(' ', 4)
